@@ -45,7 +45,10 @@ def warping_paths{{ suffix }}(
     req_length = dtaidistancec_dtw.dtw_settings_wps_length(len(s1), len(s2), &settings._settings)
     req_width = dtaidistancec_dtw.dtw_settings_wps_width(len(s1), len(s2), &settings._settings)
     shape = (1, req_length)
-    if req_length == dtw_length and req_width == dtw.shape[1]:
+    # The compact layout only coincides with the full matrix if no row is shifted (region C is empty)
+    wps_parts = dtaidistancec_dtw.dtw_wps_parts(len(s1), len(s2), &settings._settings)
+    is_full = (req_length == dtw_length and req_width == dtw.shape[1] and wps_parts.ri2 == wps_parts.ri3)
+    if is_full:
         # No compact WPS array is required
         wps = dtw
     else:
@@ -58,7 +61,7 @@ def warping_paths{{ suffix }}(
     cdef seq_t [:, :] wps_view = wps
     cdef seq_t d
     {{ select_c_fn("wps_view")}}
-    if not (req_length == dtw_length and req_width == dtw.shape[1]):
+    if not is_full:
         {%- if "affinity" in suffix %}
         dtaidistancec_dtw.dtw_expand_wps_affinity(&wps_view[0,0], &dtw[0, 0], len(s1), len(s2), &settings._settings)
         {%- else %}
